@@ -6,6 +6,7 @@ Import ListNotations.
 
 (* obligatory transitions: everything except starting a new API call and waking up from a condition wait that nobody has
    signalled (W / t still listed in waitc / waitq = parked and not signalled) *)
+Definition is_call (e : ev) : bool := match e with ECall _ _ _ => true | _ => false end.
 Definition must (s : st) (t : tid) (e : ev) : bool :=
   match e with
   | ECall _ _ _ => false
@@ -19,12 +20,14 @@ Definition sfair (c : cfg) (x : sexec) : Prop := fair st (step c) must x.
 Definition sweakly_fair (c : cfg) (x : sexec) : Prop := weakly_fair st (step c) must x.
 
 (* pc's inside the critical section *)
-Definition wlocked (p : wpcT) : bool := match p with WL1 | WDeq | WL2 | WL2a | WL2b | WWoken => true | _ => false end.
+Definition wlocked (p : wpcT) : bool :=
+  match p with WL1 | WDeq | WL2 | WL2a | WL2b | WWoken | WSdLocked => true | _ => false end.
 Definition clocked (p : cpcT) : bool :=
   match p with Locked | Woken | ODisc | Enq | Bc | DDisc | DBc1 | DBc2 => true | _ => false end.
 
 (* number of transitions (upper bound) until the owner releases the mutex *)
-Definition wcrank (p : wpcT) : nat := match p with WL1 | WL2 => 2 | WDeq | WL2a | WL2b | WWoken => 1 | _ => 0 end.
+Definition wcrank (p : wpcT) : nat :=
+  match p with WL1 | WL2 => 2 | WDeq | WL2a | WL2b | WWoken | WSdLocked => 1 | _ => 0 end.
 Definition ccrank (p : cpcT) (n : nat) : nat :=
   match p with Locked | Woken => n + 5 | ODisc | DDisc => n + 4 | Enq | DBc1 => 2 | Bc | DBc2 => 1 | _ => 0 end.
 Definition crank (s : st) (a : tid) : nat :=
@@ -37,25 +40,26 @@ Fixpoint ahead (k : task) (q : list task) : nat :=
 (* worker: transitions until the next dequeue while the queue is non-empty *)
 Definition wrank_deq (p : wpcT) : nat :=
   match p with
-  | WL1 => 0 | WTop => 1 | WWoken | WL2a => 2 | WWait => 3 | WL2b => 4 | WL2 => 5 | WU1 => 6 | WRun => 7 | WU1t => 8
-  | WDeq => 9 | WDead => 10 | WExit => 11
+  | WL1 => 0 | WTop => 1 | WWoken | WL2a => 2 | WWait => 3 | WL2b => 4 | WL2 => 5 | WU1 => 6 | WRun => 7
+  | WSdRet0 | WSdRetA => 8 | WSdLocked => 9 | WSdStart => 10 | WU1t => 11 | WDeq => 12 | WDead => 13 | WExit => 14
   end.
 Definition mdeq (k : task) (s : st) : nat := 16 * ahead k (queue s) + wrank_deq (wpc s).
 
 (* worker holding task k: transitions until fn returns *)
-Definition hrank (p : wpcT) : nat := match p with WDeq => 3 | WU1t => 2 | WRun => 1 | _ => 0 end.
+Definition hrank (p : wpcT) : nat :=
+  match p with WDeq => 6 | WU1t => 5 | WSdStart => 4 | WSdLocked => 3 | WSdRet0 | WSdRetA => 2 | WRun => 1 | _ => 0 end.
 
 (* worker after shutdown was set: transitions until the thread has finished *)
 Definition wrank_exit (p : wpcT) (empty : bool) : nat :=
   if empty then
     match p with
-    | WDead => 0 | WExit => 1 | WL2 => 2 | WU1 => 3 | WL1 | WRun => 4 | WU1t | WTop => 5 | WDeq | WWoken | WL2a => 6
-    | WWait => 7 | WL2b => 8
+    | WDead => 0 | WExit => 1 | WL2 => 2 | WU1 => 3 | WL1 | WRun => 4 | WSdRet0 | WSdRetA | WTop => 5
+    | WSdLocked | WWoken | WL2a => 6 | WSdStart | WWait => 7 | WU1t | WL2b => 8 | WDeq => 9
     end
   else
     match p with
     | WDead => 0 | WExit => 1 | WL1 => 0 | WTop => 1 | WWoken | WL2a => 2 | WWait => 3 | WL2b => 4 | WL2 => 5 | WU1 => 6
-    | WRun => 7 | WU1t => 8 | WDeq => 9
+    | WRun => 7 | WSdRet0 | WSdRetA => 8 | WSdLocked => 9 | WSdStart => 10 | WU1t => 11 | WDeq => 12
     end.
 Definition mexit (s : st) : nat := 16 * length (queue s) + wrank_exit (wpc s) (is_nil (queue s)).
 
@@ -79,6 +83,10 @@ Definition wnext (c : cfg) (s : st) : ev :=
   | WL2b => EWait 0
   | WWait => EWake 0
   | WExit | WDead => EExit
+  | WSdStart => ELock
+  | WSdLocked => EUnlock
+  | WSdRet0 => ERet RC_OK false
+  | WSdRetA => ERet RC_ASSERTION false
   end.
 
 Definition loop_next (c : cfg) (s : st) (th : cthr) : ev :=
@@ -121,7 +129,7 @@ Definition ready (s : st) (t : tid) : Prop :=
   if t =? W then
     match wpc s with
     | WDead => False
-    | WTop | WU1 => owner s = None
+    | WTop | WU1 | WSdStart => owner s = None
     | WWait => owner s = None /\ ~ In W (waitc s)
     | _ => True
     end
